@@ -9,6 +9,7 @@ import re
 from sa.model import unparse, norm_stmt, call_name, walk_no_nested, kwarg
 from sa.cfg import CFG, iteration_paths
 from sa import guards as G
+from sa import sem
 
 ENTRY = 'cli.call_variant_peptide:call_variant_peptide'
 CONSUMER = 'caller_reducer'
@@ -336,6 +337,17 @@ def run(chk, repo):
         return False
     ok = len(pl) == 1 and accumulates(pl[0]) \
         and not any(isinstance(n, (ast.Break, ast.Return, ast.Continue)) for s in pl[0].body for n in ast.walk(s))
+    if not pl:
+        # comprehension forms: [r for p in self.pointers[k] for r in p.load()] (unfiltered), or chain.from_iterable(p.load() for p in ...)
+        for c in ast.walk(gi.node):
+            if isinstance(c, (ast.ListComp, ast.GeneratorExp, ast.SetComp)) and re.fullmatch(r'self\.pointers\[\w+\]', unparse(c.generators[0].iter)) \
+                    and isinstance(c.generators[0].target, ast.Name) and not any(g.ifs for g in c.generators):
+                tg = c.generators[0].target.id
+                if len(c.generators) == 2 and unparse(c.generators[1].iter) == f"{tg}.load()" and unparse(c.elt) == unparse(c.generators[1].target):
+                    ok = True
+                if len(c.generators) == 1 and unparse(c.elt) == f"{tg}.load()":
+                    par = repo.parent(c)
+                    ok = isinstance(par, ast.Call) and unparse(par.func) in ('chain.from_iterable', 'itertools.chain.from_iterable')
     chk.ob('C06.c', '__getitem__ loads every pointer of the key', gi.where, ok,
            '__getitem__ does not accumulate pointer.load() over all pointers of the key (records from some files lost)',
            key=gi.qual + '::all-pointers', fn=gi.qual)
@@ -359,9 +371,11 @@ def run(chk, repo):
     chk.uses(fv)
     fcfg = CFG(fv.node)
     for r in [n for n in fcfg.nodes if n.kind == 'stmt' and isinstance(n.ast, ast.Return)]:
+        # the returned value is sorted: `return sorted(...)`, a name bound to sorted(...), or a name whose .sort() dominates the return
+        rv = sem.expand_names(fv.node, r.ast, r.ast.value, allow_calls=('sorted',)) if r.ast.value is not None else None
         s2 = [n.id for n in fcfg.nodes if n.kind == 'stmt' and isinstance(n.ast, ast.Expr) and unparse(n.ast.value) == f"{unparse(r.ast.value)}.sort()"]
         chk.ob('C06.c', 'filter_variants sorts before returning', repo.loc(fv, r.ast),
-               any(fcfg.dominates(s, r.id) for s in s2),
+               any(fcfg.dominates(s, r.id) for s in s2) or (isinstance(rv, ast.Call) and unparse(rv.func) == 'sorted' and not any(k.arg == 'key' for k in rv.keywords)),
                'filter_variants returns a set-derived list without sorting', key=fv.qual + '::sort-before-return', fn=fv.qual)
     for q in ('seqvar.VariantRecordPoolOnDisk:VariantRecordPoolOnDisk.load_index',
               'seqvar.VariantRecordPoolOnDisk:VariantRecordPoolOnDisk.generate_index'):
